@@ -14,6 +14,27 @@ func ValidateFeature(feature Feature, o *ValidateOptions, features b6.FeaturesBy
 		return fmt.Errorf("%s: invalid ID", feature.FeatureID())
 	}
 
+	// The type of a feature's ID says how it's represented, and the world
+	// relies on that, so it has to be true before the feature is added: it
+	// can be false for features made by, eg, add-point or add-expression
+	// with an ID of another type.
+	var ok bool
+	switch feature.FeatureID().Type {
+	case b6.FeatureTypePoint, b6.FeatureTypePath:
+		_, ok = feature.(b6.PhysicalFeature)
+	case b6.FeatureTypeArea:
+		_, ok = feature.(*AreaFeature)
+	case b6.FeatureTypeRelation:
+		_, ok = feature.(*RelationFeature)
+	case b6.FeatureTypeCollection:
+		_, ok = feature.(*CollectionFeature)
+	default:
+		ok = true
+	}
+	if !ok {
+		return fmt.Errorf("%s: a %T can't have an ID of type %s", feature.FeatureID(), feature, feature.FeatureID().Type)
+	}
+
 	if feature.FeatureID().Type == b6.FeatureTypePath {
 		return ValidatePath(feature.(b6.PhysicalFeature), o, features)
 	}
